@@ -649,15 +649,22 @@ func TarWriterClose(tw *tar.Writer) error {
 
 // IoCopy replaces io.Copy: same contract; copying a tar member to io.Discard skips without reading.
 //
+// IoCopyChunk stands for io.Copy's internal 32 KiB buffer: the model copies in chunks of 64 bytes, so that
+// chunk boundaries (which chunk-sensitive encoders see) exist for contents of more than 64 bytes.
+const IoCopyChunk = 64
+
 //verif:replace io.Copy
 func IoCopy(dst io.Writer, src io.Reader) (int64, error) {
+	return ioCopyWith(dst, src, make([]byte, IoCopyChunk))
+}
+
+func ioCopyWith(dst io.Writer, src io.Reader, buf []byte) (int64, error) {
 	if tr, ok := src.(*tar.Reader); ok && dst == io.Discard {
 		if st := readers[tr]; st != nil {
 			return st.skipAll()
 		}
 	}
 	var written int64
-	buf := make([]byte, 64)
 	for {
 		nr, er := src.Read(buf)
 		if nr > 0 {
@@ -687,7 +694,13 @@ func IoCopy(dst io.Writer, src io.Reader) (int64, error) {
 
 //verif:replace io.CopyBuffer
 func IoCopyBuffer(dst io.Writer, src io.Reader, buf []byte) (int64, error) {
-	return IoCopy(dst, src)
+	if buf != nil && len(buf) == 0 {
+		panic("empty buffer in CopyBuffer")
+	}
+	if buf == nil {
+		buf = make([]byte, IoCopyChunk)
+	}
+	return ioCopyWith(dst, src, buf)
 }
 
 // ---------- os.File over ghost tapes ----------
